@@ -70,7 +70,7 @@ props["C07"] = {
     "nontrivial": r"^(zc (alpha|run) |# probe )",
     "timeout": {"quick": 900, "thorough": 7200},
     "rule": "(a) every generated well-typed ZCore program (700 quick / 12,000 thorough; data, codata, products, thunks, functions, fix, primitives) is printed under four namings of its bound variables - as generated (all distinct), two maximal-shadowing namings drawn from a pool of four names (a binder takes any pool name that no use inside its scope needs from an outer binder, so unrelated outer binders are shadowed wherever possible), and a permutation of the names - and run through the real pipeline: verdict class, exit code and output must be identical; the Lean model decides that each naming has the same canonical form as the original (`zc alpha`) and runs each naming itself (`zc run`). (b) 120 / 600 importer-capture probes: an import of a source whose only free name is zfree, wrapped in 1-4 nested binder forms (let, do, fn, pair pattern, block `that` before and after its use, fix, def) that bind zfree, must be an unbound-variable error naming zfree; 8 controls import a closed source under the same wrappers and must be accepted. (c) 7 `that` locality probes (visible to an earlier contribution, shadows an outer let for contributions and tail, invisible after its block and in a sibling block, an inner block sees an outer `that`, an inner `that` shadows an outer one) with their exact exit codes.",
-    "explanation": "On ZCore the property is a theorem: a closed program and any renaming of its bound variables that has the same canonical form (every binder renamed to its depth, every occurrence to its innermost enclosing binder) are accepted together and have the same reference behaviour, hence (C02) the same machine behaviour; theorems proved so far are listed under `theorems`, the remaining statements stay in ZV/Props/C07Statements.lean and are not counted. The surface resolver (resolver.rs, blocks.rs) is tied to this by the metamorphic runs and the probes, not mirrored: begin-blocks, `that`, and source boundaries are outside ZCore.",
+    "explanation": "On ZCore the property is a theorem: a closed program and any renaming of its bound variables that has the same canonical form (every binder renamed to its depth, every occurrence to its innermost enclosing binder) are accepted together and have the same reference behaviour, hence (C02) the same machine behaviour; all five statements of ZV/Props/C07Statements.lean are proved (canonical renaming preserves acceptance, reference behaviour at every fuel, is idempotent; accepted programs are closed). The surface resolver (resolver.rs, blocks.rs) is tied to this by the metamorphic runs and the probes, not mirrored: begin-blocks, `that`, and source boundaries are outside ZCore.",
     "trusted_base": [KERNEL, AXIOMS, HARNESS,
                      "modelled, not verified: the surface resolver's environment threading is represented by ZCore's scoping (inferC / evalRC look names up innermost-first); the real resolver is compared through acceptance and behaviour of every naming, not occurrence by occurrence",
                      "NOT modelled: BlockScope / candidate collection (blocks.rs), source and signature boundaries (Local::for_body), provider cloning (program.rs, clone.rs): covered by probes (b) and (c) only",
@@ -254,6 +254,7 @@ props["C01"]["manifest"] = {
     "technique": "Lean CK-machine mirror + progress/preservation-style safety theorem on a typed core + three-way differential correspondence (real interpreter, Lean machine on the real linked program, Lean typed model) + typed mutants",
 }
 props["C02"] = {
+    "model_oracle_prefixes": ["zc run "],
     "harness": "c01", "level": "proof", "nontrivial": r"^(ck|zc) run ",
     "timeout": {"quick": 1500, "thorough": 7200},
     "rule": PROGRAM_RULE,
